@@ -6,6 +6,21 @@
 
 namespace etl {
 
+namespace detail {
+/// |v| converted to R. The absolute value is taken before the conversion, so a negative
+/// signed value combined with an unsigned common type does not wrap around first.
+template <typename R, typename T>
+[[nodiscard]] constexpr auto gcd_abs(T v) noexcept -> R
+{
+    if constexpr (static_cast<T>(-1) < static_cast<T>(0)) {
+        if (v < 0) {
+            return static_cast<R>(R(0) - static_cast<R>(v));
+        }
+    }
+    return static_cast<R>(v);
+}
+} // namespace detail
+
 /// \brief Computes the greatest common divisor of the integers m and n.
 ///
 /// \returns If both m and n are zero, returns zero. Otherwise, returns the
@@ -16,14 +31,14 @@ template <typename M, typename N>
 [[nodiscard]] constexpr auto gcd(M m, N n) noexcept -> etl::common_type_t<M, N>
 {
     using R = etl::common_type_t<M, N>;
-    auto a  = static_cast<R>(m);
-    auto b  = static_cast<R>(n);
+    auto a  = etl::detail::gcd_abs<R>(m);
+    auto b  = etl::detail::gcd_abs<R>(n);
     while (b != 0) {
         auto const t = static_cast<R>(a % b);
         a            = b;
         b            = t;
     }
-    return a < 0 ? static_cast<R>(-a) : a;
+    return a;
 }
 
 } // namespace etl
